@@ -414,8 +414,14 @@ impl<'a> From<Piece<'a>> for Chunk {
                     // chrono reports an invalid format specifier only while
                     // formatting, by failing the `Display` impl, which makes
                     // `write!` panic. Surface it as an error chunk instead.
+                    // Some specifiers (e.g. the parse-only `%#z`) are accepted by
+                    // the parser but still cannot be formatted, so format once.
                     if chrono::format::StrftimeItems::new(&format)
                         .any(|item| matches!(item, chrono::format::Item::Error))
+                        || {
+                            use std::fmt::Write as _;
+                            write!(String::new(), "{}", Utc::now().format(&format)).is_err()
+                        }
                     {
                         return Chunk::Error(format!("invalid date format `{}`", format));
                     }
